@@ -259,6 +259,9 @@ pub struct Alphabet {
     pub closures_read_observers: bool,
     /// only these nodes may be observed (empty = all created nodes)
     pub observable: Vec<u8>,
+    /// subscription handlers unsubscribe themselves (through a WeakState and their own token)
+    /// when they receive their first `Changed`
+    pub handler_self_unsub: bool,
 }
 
 impl Default for Alphabet {
@@ -279,6 +282,7 @@ impl Default for Alphabet {
             max_subs: 0,
             closures_read_observers: false,
             observable: vec![],
+            handler_self_unsub: false,
         }
     }
 }
@@ -291,6 +295,7 @@ impl Alphabet {
             "unsubscribe": self.unsubscribe, "state_unsubscribe": self.state_unsubscribe, "on_update": self.on_update,
             "observe_inner": self.observe_inner, "max_observers": self.max_observers, "max_subs": self.max_subs,
             "closures_read_observers": self.closures_read_observers, "observable": self.observable,
+            "handler_self_unsub": self.handler_self_unsub,
         })
     }
     pub fn from_json(j: &Json) -> Option<Alphabet> {
@@ -310,6 +315,7 @@ impl Alphabet {
             max_observers: j.get("max_observers")?.as_u64()? as u8,
             max_subs: j.get("max_subs")?.as_u64()? as u8,
             closures_read_observers: b("closures_read_observers"),
+            handler_self_unsub: b("handler_self_unsub"),
             observable: j
                 .get("observable")
                 .and_then(|v| v.as_array())
@@ -415,6 +421,9 @@ pub enum Act {
     Observe(u8),
     /// observe the k-th node made by the current generation of pinned bind b
     ObserveInner(u8, u8),
+    /// observe the k2-th node made by the current generation of the nested bind that is the
+    /// k-th node made by the current generation of pinned bind b
+    ObserveInner2(u8, u8, u8),
     CloneObs(u8),
     /// drop one public handle of observer slot s
     DropObs(u8),
@@ -437,6 +446,7 @@ impl Act {
             Act::Stabilise => json!("stabilise"),
             Act::Observe(n) => json!({"observe": n}),
             Act::ObserveInner(b, k) => json!({"observe_inner": [b, k]}),
+            Act::ObserveInner2(b, k, k2) => json!({"observe_inner2": [b, k, k2]}),
             Act::CloneObs(s) => json!({"clone_obs": s}),
             Act::DropObs(s) => json!({"drop_obs": s}),
             Act::Disallow(s) => json!({"disallow": s}),
@@ -472,6 +482,10 @@ impl Act {
             "observe_inner" => {
                 let (a, b) = pair(v)?;
                 Act::ObserveInner(a as u8, b as u8)
+            }
+            "observe_inner2" => {
+                let a = v.as_array()?;
+                Act::ObserveInner2(a.first()?.as_u64()? as u8, a.get(1)?.as_u64()? as u8, a.get(2)?.as_u64()? as u8)
             }
             "clone_obs" => Act::CloneObs(u(v)?),
             "drop_obs" => Act::DropObs(u(v)?),
